@@ -1,6 +1,7 @@
 import Pyrtma.Props.EmitTables
 import Pyrtma.Gen.CorePy
 import Pyrtma.Proofs.Combined
+import Pyrtma.Proofs.Paths
 /-!
 # C16 — deterministic compilation; combined-YAML round trip; the shipped core definitions are current
 
@@ -15,10 +16,19 @@ Proof-level content
   marks cleared); `combined_yaml_same_signatures` spells that out as ids / hashes / sizes / field lists;
   `forward_ref_never_reparses` and `reparse_fails_iff_forward_ref` — `noFwdRef` (decidable) is *exactly* the class
   outside the open finding C16-F2.
+* determinism (`Model/Paths.lean` = the path arithmetic of `Parser.parse / parse_file / trim_root` and the one place
+  where the environment reaches the outputs: `src` → `type_source` and the `core_defs` mark; proofs in `Proofs/Paths.lean`):
+  `compile_deterministic` — the outputs of `compileRun` do not depend on the working directory, on how the root path is
+  spelled, or on the output directory; `source_independent_of_cwd`; `outputs_ignore_location` — the Python / JavaScript /
+  MATLAB programs and the combined YAML are functions of the ordered items only (registries are insertion-ordered
+  lists); a kernel-checked counterexample shows the statement fails for the variant that stores `root_path` unresolved
+  (the seeded change `seeded/C16c`).  No clock is an input of the model: the outputs carry a version string, no time.
 Decided on the implementation every run: that the real combined file is the model's (`CORR combined.yaml`: canonical
 lines of the real file, read with ruamel, against `combinedSections`), that the real re-parse gives what
-`elaborate (combine fs)` gives (`CORR combined.reparse`, registries line by line, errors included), the byte comparison
-of repeated compiles.
+`elaborate (combine fs)` gives (`CORR combined.reparse`, registries line by line, errors included), that the `core` marks
+and every `type_source` of the real Python output are what the path model derives from the resolved file paths in each
+of the three environments the compiler is really run in (`CORR paths.core / paths.source`), and the byte comparison
+of those three compiles (another working directory, relative spellings, another output directory).
 -/
 namespace Pyrtma.C16
 open Pyrtma.Emit Pyrtma.Emit.Inst Pyrtma.Gen
@@ -120,6 +130,38 @@ theorem reparse_fails_iff_forward_ref (ap : Bool) (fs : List FileItems) (R : Reg
     (∃ e, elaborate tables ap (combine fs) {} = .error e) ↔ noFwdRef tables (flattenFiles fs) = false :=
   combined_fails_iff tables_ct ap fs R h hnd
 
+/-! ### determinism (`Model/Paths.lean`: the path arithmetic of `Parser.parse / parse_file / trim_root`)
+
+In Lean `compileRun` is a function, so "same inputs, same outputs" is `rfl`; the content is in *what counts as input*.
+The model gives `compile()` the environment the code reads — working directory, spelling of the root path, output
+directory — and lets it reach the outputs the way the code does (`root_path`, `chdir` per file, `os.path.relpath`
+evaluated in whatever the working directory is at that moment, `src.parent.stem == "core_defs"`).  The theorems say
+that the environment cancels out; the registries being insertion-ordered lists (Python dicts), the programs are
+functions of their ordered content, and for Python / JavaScript / MATLAB of nothing else. -/
+
+/-- **`compile_deterministic`.**  Same files, any two working directories, any two spellings of the root path that
+name the same file (absolute, relative, through `..`), any two output directories: same outcome, same four programs,
+same `type_source` strings, same combined YAML. -/
+theorem compile_deterministic (ap : Bool) (k : Nat) (d : Disk) {e1 e2 : Env} {f1 f2 : Nat}
+    (h1 : e1.root.segs.getLast? = some (.name f1)) (h2 : e2.root.segs.getLast? = some (.name f2))
+    (h : e1.rootFile = e2.rootFile) : compileRun tables ap k e1 d = compileRun tables ap k e2 d :=
+  compile_env_irrelevant tables ap k d h1 h2 h
+
+/-- `trim_root` with the resolved `root_path` the code stores is plain `relpath` of two resolved paths: it does not
+depend on the working directory in which `os.path.relpath` is evaluated (the parser changes it for every file) -/
+theorem source_independent_of_cwd (cwd root file : AbsPath) :
+    relpath cwd (absSpelled file) (absSpelled root) = relAbs file root := relpath_abs cwd file root
+
+/-- **`outputs_ignore_location`.**  The Python, JavaScript and MATLAB programs, the outcome and the combined YAML are
+functions of the items file by file in parse order — not of where the files live or of which of them count as core. -/
+theorem outputs_ignore_location (ap : Bool) (fs1 fs2 : List FileItems) (h : fs1.map (·.items) = fs2.map (·.items)) :
+    (match elaborate tables ap (flattenFiles fs1) {}, elaborate tables ap (flattenFiles fs2) {} with
+     | .ok R1, .ok R2 => emitPy tables R1 = emitPy tables R2 ∧ emitJs tables R1 = emitJs tables R2 ∧
+                          emitM tables R1 = emitM tables R2
+     | .error e1, .error e2 => e1 = e2
+     | _, _ => False) ∧ combinedSections fs1 = combinedSections fs2 :=
+  relocation_irrelevant tables_ct ap fs1 fs2 h
+
 /-! ### Non-vacuity -/
 
 
@@ -161,6 +203,34 @@ example :
                   decide ((defNames (flattenFiles fs)).Nodup), noFwdRef tables (flattenFiles fs),
                   match elaborate tables true (combine fs) {} with | .ok _ => true | .error _ => false))
     = [(true, true, false, false), (true, true, false, false), (true, true, false, false)] := by decide +kernel
+
+
+/-- a closure on disk: `/w/src/a.yaml` (root) imports `sub/b.yaml`, which imports `../c.yaml`; the package lives in `/p` -/
+def detDisk : Disk :=
+  { pkgDir := [900], coreFiles := [],
+    files := [([901, 902, 905], [.struct 700 1 (.list [(701, idOf "int32", none)])]),                 -- /w/src/c.yaml
+              ([901, 902, 903, 904], [.struct 702 2 (.list [(703, 700, none), (704, idOf "int32", none)])]),  -- /w/src/sub/b.yaml
+              ([901, 902, 906], [.message 705 1500 3 (.list [(706, 702, none)])])] }                  -- /w/src/a.yaml
+
+/-- absolute path from `/`; `../src/a.yaml` from `/w/elsewhere`; `src/a.yaml` from `/w`; `./x/../a.yaml` from `/w/src` -/
+def detEnvs : List Env :=
+  [{ cwd := [], root := ⟨true, [.name 901, .name 902, .name 906]⟩, outDir := ⟨true, [.name 910]⟩ },
+   { cwd := [901, 911], root := ⟨false, [.up, .name 902, .name 906]⟩, outDir := ⟨false, [.name 912]⟩ },
+   { cwd := [901], root := ⟨false, [.name 902, .name 906]⟩, outDir := ⟨false, []⟩ },
+   { cwd := [901, 902], root := ⟨false, [.cur, .name 913, .up, .name 906]⟩, outDir := ⟨false, [.up]⟩ }]
+
+/-- non-vacuity of `compile_deterministic`: the four environments resolve to the same root file, the run succeeds,
+and the sources are the relative paths `c.yaml`, `sub/b.yaml`, `a.yaml` -/
+example : detEnvs.all (fun e => e.rootFile == [901, 902, 906] &&
+      (compileRun tables true 999 e detDisk).outcome == none &&
+      (compileRun tables true 999 e detDisk).sources ==
+        [(700, [.name 905]), (702, [.name 903, .name 904]), (705, [.name 906])]) = true := by decide +kernel
+
+/-- the statement is not true of every way of writing the code: with `root_path = defs_path.parent` stored as spelled
+(the seeded change `seeded/C16c`) the same four environments give different `type_source` strings — `relpath` then
+resolves the stored relative path against the working directory of the moment (the directory of the file in hand) -/
+example : (detEnvs.map (fun e => (compileWith storedRootUnresolved tables true 999 e detDisk).sources)).eraseDups.length > 1 := by
+  decide +kernel
 
 /-- the core registry is not trivial: 3 files, more than 50 messages -/
 example : (match elaborate tables true CoreYaml.items {} with
